@@ -51,6 +51,9 @@ class Tz(datetime.tzinfo):
     def __init__(self, minutes, name):
         self.o, self.n = datetime.timedelta(minutes=minutes), name
 
+    def __getinitargs__(self):  # copy / pickle support, as zoneinfo and pytz zones have
+        return (self.o // datetime.timedelta(minutes=1), self.n)
+
     def utcoffset(self, dt):
         return self.o
 
@@ -164,6 +167,60 @@ def wire_scan(ctx, name, form, data, elem, case):
             return
 
 
+def mutate_members(ctx, inst, cls, rng):
+    """Repeated data elements are plain list members: values put there AFTER construction (append / insert / extend / item
+    assignment / +=) reach the writer unchecked by the constructor - the writer is the last place to refuse them (monitored)."""
+    import copy
+    from ofxtools import Types as T
+
+    d = ref_decl.decl(cls)
+    le = next((t for t in d.values() if ref_decl.kind_of(t) == "listelem"), None)
+    if le is None:
+        return
+    conv = le.converter
+    if isinstance(conv, T.Integer):
+        bads = ["20x1", "1e3", "", " ", 10 ** ((conv.length or 12) + 1), "+-1", 1.5, "12 "]
+    elif isinstance(conv, T.OneOf):
+        bads = ["KLINGON", str(conv.valid[0]).lower(), str(conv.valid[0]) + "X", 7]
+    elif isinstance(conv, T.Decimal):
+        bads = ["1e3", "NaN", "1,2,3", float("inf"), D("Infinity"), "abc"]
+    elif isinstance(conv, T.NagString):
+        bads = ["<b>&", "a<b"]
+    elif isinstance(conv, T.String):
+        bads = ["x" * ((conv.length or 40) + 1), "a<b&c" + "y" * (conv.length or 40), 5]
+    else:
+        bads = ["yesterday", "2020-01-01", 5]
+    for opname in ("append", "insert", "extend", "setitem", "iadd"):
+        try:
+            m = copy.deepcopy(inst)
+        except Exception:
+            ctx.count("copy_failed_not_judged")
+            continue
+        bad = rng.choice(bads)
+        try:
+            if opname == "append":
+                m.append(bad)
+            elif opname == "insert":
+                m.insert(0, bad)
+            elif opname == "extend":
+                m.extend([bad])
+            elif opname == "setitem":
+                if len(m) == 0:
+                    continue
+                m[rng.randrange(len(m))] = bad
+            else:
+                m += [bad]
+        except Exception:
+            ctx.count("member_refused_by_list_interface")
+            continue
+        ctx.count("members_put_after_construction")
+        try:
+            m.to_etree()  # monitored: whatever it writes is checked against the element's declared type
+            ctx.count("late_member_written")
+        except Exception:
+            ctx.count("late_member_refused_at_write")
+
+
 def one(ctx, name, cls, seedstr, forms):
     from ofxtools.Client import OFXClient
 
@@ -185,6 +242,7 @@ def one(ctx, name, cls, seedstr, forms):
         return
     ctx.count("instances_written")
     ctx.distinct((name, seedstr))
+    mutate_members(ctx, inst, cls, rng)
     for form, ver, pretty, close in forms:
         try:
             data = OFXClient("http://x", version=ver, prettyprint=pretty, close_elements=close).serialize(inst)
